@@ -50,6 +50,8 @@ def the_doc():
         Container("S", (("p", "S_BYTE"),), base="CCSDSPacket", criteria=(Cmp("PKT_APID", "==", "4"),)),
         # stand-alone container: reachable only when a call names it as its root (root_container_name=...)
         Container("RAWDUMP", (("p", "S_BYTE"), ("p", "A_CAL"))),
+        # an abstract container without entries and without children: as a per-call root, every packet is unrecognised before any field is read
+        Container("NOTHING", (), abstract=True),
     )
     return Doc(pts, prs, conts)
 
@@ -75,8 +77,11 @@ def obs_item(p):
     from space_packet_parser.exceptions import UnrecognizedPacketTypeError
     if isinstance(p, UnrecognizedPacketTypeError):
         pd = getattr(p, "partial_data", None)
-        return ("error", tuple(map(tuple, items_of(pd))) if pd is not None else None,
-                bytes(pd.raw_data) if pd is not None else None)
+        # the partial data is the packet object itself (its items so far, its bytes, its cursor), also when no item was decoded yet
+        rd = getattr(pd, "raw_data", None)
+        from space_packet_parser.packets import CCSDSPacket as _P
+        return ("error" if isinstance(pd, _P) else "error-whose-partial-data-is-not-the-packet", tuple(map(tuple, items_of(pd))) if pd is not None else None,
+                (type(pd).__name__, bytes(rd), rd.pos) if rd is not None else (type(pd).__name__, "no raw_data"))
     if isinstance(p, bytes):
         return ("raw", bytes(p))
     if isinstance(p, Exception):
@@ -108,6 +113,7 @@ OPTS = [{"parse_bad_pkts": a, "yield_unrecognized_packet_errors": b, "ccsds_head
 # a root container named for one call only: the choice belongs to that call, not to the definition
 OPTS[3:3] = [{"parse_bad_pkts": True, "yield_unrecognized_packet_errors": True, "ccsds_headers_only": False, "root_container_name": "RAWDUMP"}]
 OPTS.append({"parse_bad_pkts": False, "yield_unrecognized_packet_errors": False, "ccsds_headers_only": False, "root_container_name": "RAWDUMP"})
+OPTS.append({"parse_bad_pkts": True, "yield_unrecognized_packet_errors": True, "ccsds_headers_only": False, "root_container_name": "NOTHING"})
 # headers only: one raw packet per packet of the stream, whatever else is asked for (segment reassembly, a raw-record prefix of 0 bytes)
 OPTS.append({"parse_bad_pkts": True, "yield_unrecognized_packet_errors": False, "ccsds_headers_only": True, "combine_segmented_packets": True})
 OPTS.append({"parse_bad_pkts": False, "yield_unrecognized_packet_errors": True, "ccsds_headers_only": True, "combine_segmented_packets": True, "secondary_header_bytes": 1})
@@ -143,6 +149,9 @@ def _task_streams(task):
                     t.transitions += len(seq)
                     t.traces += 1
                     t.outcomes[f"yielded={min(len(want), 4)}"] += 1
+                    if any(g[0] == "error-whose-partial-data-is-not-the-packet" for g in got):
+                        t.violation({"kind": "error-object-without-partial-data", "opts": oi}, {"seq": list(seq), "opts": opts, "via": task["via"]},
+                                    observed=[g[0] for g in got], note="an unrecognised packet is reported by an error object whose partial_data is not the packet object")
                     if got != want:
                         first = next((j for j, (a, b) in enumerate(zip(got, want)) if a != b), min(len(got), len(want)))
                         t.violation({"kind": "stream-not-concatenation", "opts": oi, "headers_only": opts["ccsds_headers_only"]},
